@@ -7,122 +7,152 @@
 package fdo
 
 //@ func fdo.TO0Client.hello
+//@   params c ctx transport
 //@   props C10(sweep)
 //@   sweep bounds,panic,make,nilmem,div
 
 //@ func fdo.TO0Server.helloAck
+//@   params s ctx msg
 //@   props C10(sweep)
 //@   sweep bounds,panic,make,nilmem,div
 
 //@ func fdo.TO1
+//@   params ctx transport cred key opts
 //@   props C10(sweep)
 //@   sweep bounds,panic,make,nilmem,div
 
 //@ func fdo.TO1Server.helloRVAck
+//@   params s ctx msg
 //@   props C10(sweep)
 //@   sweep bounds,panic,make,nilmem,div
 
 //@ func fdo.TO2Server.ovNextEntry
+//@   params s ctx msg
 //@   props C10(sweep)
 //@   sweep bounds,panic,make,nilmem,div
 
 //@ func fdo.TO2Server.ownerKey
+//@   params s ctx keyType keyEncoding rsaBits
 //@   props C10(sweep)
 //@   sweep bounds,panic,make,nilmem,div
 
 //@ func fdo.TO2Server.ownerServiceInfo
+//@   params s ctx msg
 //@   props C10(sweep)
 //@   sweep bounds,panic,make,nilmem,div
 
 //@ func fdo.TO2Server.ownerServiceInfoReady
+//@   params s ctx msg
 //@   props C10(sweep)
 //@   sweep bounds,panic,make,nilmem,div
 
 //@ func fdo.TO2Server.produceOwnerServiceInfo
+//@   params s ctx moduleName module
 //@   props C10(sweep)
 //@   sweep bounds,panic,make,nilmem,div
 
 //@ func fdo.TO2Server.to2Done2
+//@   params s ctx msg
 //@   props C10(sweep)
 //@   sweep bounds,panic,make,nilmem,div
 
 //@ func fdo.Voucher.VerifyDeviceCertChain
+//@   params v roots
 //@   props C10(sweep)
 //@   sweep bounds,panic,make,nilmem,div
 
 //@ func fdo.Voucher.VerifyManufacturerCertChain
+//@   params v roots
 //@   props C10(sweep)
 //@   sweep bounds,panic,make,nilmem,div
 
 //@ func fdo.VoucherEntryPayload.VerifyOwnerCertChain
+//@   params e roots
 //@   props C10(sweep)
 //@   sweep bounds,panic,make,nilmem,div
 
 //@ func fdo.VoucherHeader.Equal
+//@   params ovh otherOVH
 //@   props C10(sweep)
 //@   sweep bounds,panic,make,nilmem,div
 
 //@ func fdo.appStart
+//@   params ctx transport info
 //@   props C10(sweep)
 //@   sweep bounds,panic,make,nilmem,div
 
 //@ func fdo.devmodOwnerModule.HandleInfo
+//@   params d ctx messageName messageBody
 //@   props C10(sweep)
 //@   sweep bounds,panic,make,nilmem,div
 
 //@ func fdo.handleOwnerModuleMessage
+//@   params ctx mod moduleName messageName messageBody send
 //@   props C10(sweep)
 //@   sweep bounds,panic,make,nilmem,div
 
 //@ func fdo.handleOwnerModuleMessages
+//@   params ctx prevModuleName modules ownerInfo send
 //@   props C10(sweep)
 //@   sweep bounds,panic,make,nilmem,div
 
 //@ func fdo.hashAlgFor
+//@   params devicePubKey ownerPubKey
 //@   props C10(sweep)
 //@   sweep bounds,panic,make,nilmem,div
 
 //@ func fdo.hashSizeForPubKey
+//@   params pubKey
 //@   props C10(sweep)
 //@   sweep bounds,panic,make,nilmem,div
 
 //@ func fdo.helloRv
+//@   params ctx transport cred key opts
 //@   props C10(sweep)
 //@   sweep bounds,panic,make,nilmem,div
 
 //@ func fdo.newEAT
+//@   params guid nonce fdo other
 //@   props C10(sweep)
 //@   sweep bounds,panic,make,nilmem,div
 
 //@ func fdo.newSignedEntry
+//@   params owner usePSS payload
 //@   props C10(sweep)
 //@   sweep bounds,panic,make,nilmem,div
 
 //@ func fdo.proveDevice
+//@   params ctx transport proveDeviceNonce ownerPublicKey sess c
 //@   props C10(sweep)
 //@   sweep bounds,panic,make,nilmem,div
 
 //@ func fdo.proveToRv
+//@   params ctx transport cred nonce key opts
 //@   props C10(sweep)
 //@   sweep bounds,panic,make,nilmem,div
 
 //@ func fdo.reuseCredentials
+//@   params ctx replacementOVH ownerPublicKey c
 //@   props C10(sweep)
 //@   sweep bounds,panic,make,nilmem,div
 
 //@ func fdo.sendDeviceServiceInfo
+//@   params ctx transport msg sess
 //@   props C10(sweep)
 //@   sweep bounds,panic,make,nilmem,div
 
 //@ func fdo.sendDone
+//@   params ctx transport proveDvNonce setupDvNonce sess
 //@   props C10(sweep)
 //@   sweep bounds,panic,make,nilmem,div
 
 //@ func fdo.setHmac
+//@   params ctx transport hmac ovh
 //@   props C10(sweep)
 //@   sweep bounds,panic,make,nilmem,div
 
 //@ func fdo.stopOwnerPlugin
+//@   params ctx name module
 //@   props C10(sweep)
 //@   sweep bounds,panic,make,nilmem,div
 
